@@ -69,7 +69,7 @@ func ruleWalkersVisitAll(c *Ctx, rule string) int {
 								bad, pos = fmt.Sprintf("the entry name is compared with %s", vdesc(other)), x.Pos()
 							}
 						default:
-							bad, pos = "the entry name is ordered against another value", x.Pos()
+							// ordering comparisons (sorting a listing) select nothing
 						}
 					case *ssa.Call:
 						if cf := x.Call.StaticCallee(); cf != nil && namePredicates[qualName(cf)] {
